@@ -1335,6 +1335,178 @@ theorem C10_likelihood_skip_empty_counterexample :
     likelihoodRegimensSkipEmpty regs (some own) ["B"] = [("B", some own)] := by
   decide +kernel
 
+/-! ## objects derived from other objects -/
+
+/-- the regimen chosen through a handle is what that handle reports -/
+theorem C10_derived_set_own (σ : Heap) (h : Nat) (r : Regimen) :
+    (σ.step (.set h r)).regimenOf h = r := by
+  simp [Heap.step, Heap.regimenOf]
+
+/-- … and what every other handle onto the same model reports; handles onto OTHER models report what
+    they reported before -/
+theorem C10_derived_set_frame (σ : Heap) (h h' : Nat) (r : Regimen) :
+    (σ.cell h' = σ.cell h → (σ.step (.set h r)).regimenOf h' = r) ∧
+    (σ.cell h' ≠ σ.cell h → (σ.step (.set h r)).regimenOf h' = σ.regimenOf h') := by
+  constructor
+  · intro he
+    simp [Heap.step, Heap.regimenOf, he]
+  · intro hne
+    simp [Heap.step, Heap.regimenOf, hne]
+
+theorem derived_step_nHandles (σ : Heap) (op : DeriveOp) : σ.nHandles ≤ (σ.step op).nHandles := by
+  cases op <;> simp [Heap.step]
+
+theorem derived_step_nCells (σ : Heap) (op : DeriveOp) : σ.nCells ≤ (σ.step op).nCells := by
+  cases op <;> simp [Heap.step]
+
+theorem derived_step_cell (σ : Heap) (op : DeriveOp) (k : Nat) (hk : k < σ.nHandles) :
+    (σ.step op).cell k = σ.cell k := by
+  cases op <;> simp [Heap.step] <;> intro h <;> omega
+
+theorem derived_step_wf (σ : Heap) (hw : σ.WF) (op : DeriveOp) (hop : op.handle < σ.nHandles) :
+    (σ.step op).WF := by
+  intro k hk
+  cases op with
+  | copy h =>
+    simp only [Heap.step] at hk ⊢
+    split_ifs with hkk
+    · omega
+    · have := hw k (by omega); omega
+  | wrap h =>
+    simp only [Heap.step] at hk ⊢
+    split_ifs with hkk
+    · exact hw h hop
+    · exact hw k (by omega)
+  | set h r =>
+    simp only [Heap.step] at hk ⊢
+    exact hw k hk
+
+/-- **A derived object owns its model.**  `copy` / `PredictiveModel(m, …)` / the controller: the new
+    handle reports what the source holds at that moment, it points at a cell no earlier handle points
+    at, and every earlier handle keeps its cell and its regimen. -/
+theorem C10_derived_copy (σ : Heap) (hw : σ.WF) (h : Nat) :
+    (σ.step (.copy h)).regimenOf σ.nHandles = σ.regimenOf h ∧
+    ∀ k, k < σ.nHandles →
+      (σ.step (.copy h)).cell k = σ.cell k ∧
+      (σ.step (.copy h)).cell k ≠ (σ.step (.copy h)).cell σ.nHandles ∧
+      (σ.step (.copy h)).regimenOf k = σ.regimenOf k := by
+  refine ⟨by simp [Heap.step, Heap.regimenOf], ?_⟩
+  intro k hk
+  have hc := hw k hk
+  have hne : k ≠ σ.nHandles := by omega
+  have hcn : σ.cell k ≠ σ.nCells := by omega
+  simp [Heap.step, Heap.regimenOf, hne, hcn]
+
+/-- a wrapper is another handle onto the same model: it reports the wrapped object's regimen, and a
+    regimen chosen through either is reported by both -/
+theorem C10_derived_wrap (σ : Heap) (h : Nat) (r : Regimen) :
+    (σ.step (.wrap h)).regimenOf σ.nHandles = σ.regimenOf h ∧
+    (h < σ.nHandles →
+      (((σ.step (.wrap h)).step (.set σ.nHandles r)).regimenOf h = r ∧
+       ((σ.step (.wrap h)).step (.set h r)).regimenOf σ.nHandles = r)) := by
+  refine ⟨by simp [Heap.step, Heap.regimenOf], ?_⟩
+  intro hh
+  have hne : h ≠ σ.nHandles := by omega
+  simp [Heap.step, Heap.regimenOf, hne]
+
+theorem derived_run_cell (ops : List DeriveOp) : ∀ (σ : Heap), σ.ValidOps ops →
+    ∀ k, k < σ.nHandles → (σ.run ops).cell k = σ.cell k ∧ σ.nHandles ≤ (σ.run ops).nHandles := by
+  induction ops with
+  | nil => intro σ _ k _; exact ⟨rfl, le_refl _⟩
+  | cons op rest ih =>
+    intro σ hv k hk
+    have hk' : k < (σ.step op).nHandles := lt_of_lt_of_le hk (derived_step_nHandles σ op)
+    obtain ⟨h1, h2⟩ := ih (σ.step op) hv.2 k hk'
+    refine ⟨?_, le_trans (derived_step_nHandles σ op) h2⟩
+    show ((σ.step op).run rest).cell k = σ.cell k
+    rw [h1, derived_step_cell σ op k hk]
+
+theorem derived_run_wf (ops : List DeriveOp) : ∀ (σ : Heap), σ.WF → σ.ValidOps ops →
+    (σ.run ops).WF := by
+  induction ops with
+  | nil => intro σ hw _; exact hw
+  | cons op rest ih =>
+    intro σ hw hv
+    exact ih (σ.step op) (derived_step_wf σ hw op hv.1) hv.2
+
+/-- **Nobody else's choice reaches a model.**  Through any history of derivations, wrappings and
+    regimen choices in which no regimen is chosen for the model in cell `c` (through any of its
+    handles), that model holds what it held before. -/
+theorem C10_derived_untouched_cell (ops : List DeriveOp) : ∀ (σ : Heap) (c : Nat), c < σ.nCells →
+    ¬ σ.Touches ops c → (σ.run ops).reg c = σ.reg c := by
+  induction ops with
+  | nil => intro σ c _ _; rfl
+  | cons op rest ih =>
+    intro σ c hc ht
+    have ht2 : ¬ (σ.step op).Touches rest c := fun hx => ht (Or.inr hx)
+    have hc' : c < (σ.step op).nCells := lt_of_lt_of_le hc (derived_step_nCells σ op)
+    show ((σ.step op).run rest).reg c = σ.reg c
+    rw [ih (σ.step op) c hc' ht2]
+    cases op with
+    | copy h =>
+      have : c ≠ σ.nCells := by omega
+      simp [Heap.step, this]
+    | wrap h => simp [Heap.step]
+    | set h r =>
+      have : c ≠ σ.cell h := fun he => ht (Or.inl he.symm)
+      simp [Heap.step, this]
+
+/-- the same for what a handle reports: through any such history every object keeps the regimen
+    that was chosen for it — whatever is chosen for the objects derived from it, for the object it
+    was derived from, or for its siblings -/
+theorem C10_derived_untouched (σ : Heap) (hw : σ.WF) (ops : List DeriveOp) (hv : σ.ValidOps ops)
+    (k : Nat) (hk : k < σ.nHandles) (ht : ¬ σ.Touches ops (σ.cell k)) :
+    (σ.run ops).regimenOf k = σ.regimenOf k := by
+  unfold Heap.regimenOf
+  rw [(derived_run_cell ops σ hv k hk).1]
+  exact C10_derived_untouched_cell ops σ (σ.cell k) (hw k hk) ht
+
+/-- **The last choice for an object is what it reports and delivers**, whatever happens to other
+    objects afterwards -/
+theorem C10_derived_last_set (σ : Heap) (hw : σ.WF) (h : Nat) (hh : h < σ.nHandles) (r : Regimen)
+    (post : List DeriveOp) (hv : (σ.step (.set h r)).ValidOps post)
+    (ht : ¬ (σ.step (.set h r)).Touches post (σ.cell h)) :
+    (σ.run (.set h r :: post)).regimenOf h = r := by
+  have hw' : (σ.step (.set h r)).WF := derived_step_wf σ hw (.set h r) hh
+  have hh' : h < (σ.step (.set h r)).nHandles := by simpa [Heap.step] using hh
+  have hc : (σ.step (.set h r)).cell h = σ.cell h := by simp [Heap.step]
+  have := C10_derived_untouched (σ.step (.set h r)) hw' post hv h hh' (by rw [hc]; exact ht)
+  show ((σ.step (.set h r)).run post).regimenOf h = r
+  rw [this]
+  exact C10_derived_set_own σ h r
+
+/-- an object derived before reports, after any history that chooses nothing for it, what its source
+    held when it was derived — later choices for the source do not reach it -/
+theorem C10_derived_keeps_source (σ : Heap) (hw : σ.WF) (h : Nat) (hh : h < σ.nHandles)
+    (post : List DeriveOp) (hv : (σ.step (.copy h)).ValidOps post)
+    (ht : ¬ (σ.step (.copy h)).Touches post σ.nCells) :
+    (σ.run (.copy h :: post)).regimenOf σ.nHandles = σ.regimenOf h := by
+  have hw' : (σ.step (.copy h)).WF := derived_step_wf σ hw (.copy h) hh
+  have hn : σ.nHandles < (σ.step (.copy h)).nHandles := by simp [Heap.step]
+  have hc : (σ.step (.copy h)).cell σ.nHandles = σ.nCells := by simp [Heap.step]
+  have := C10_derived_untouched (σ.step (.copy h)) hw' post hv σ.nHandles hn (by rw [hc]; exact ht)
+  show ((σ.step (.copy h)).run post).regimenOf σ.nHandles = σ.regimenOf h
+  rw [this]
+  exact (C10_derived_copy σ hw h).1
+
+/-- two arms derived from one model, a regimen for each, for ALL regimens `a`, `b` and whatever the
+    source held: each arm reports its own, the source still what it held -/
+theorem C10_derived_two_arms (s a b : Regimen) :
+    let σ := (Heap.init s).run [.copy 0, .copy 0, .set 1 a, .set 2 b]
+    σ.regimenOf 1 = a ∧ σ.regimenOf 2 = b ∧ σ.regimenOf 0 = s := by
+  simp [Heap.init, Heap.run, Heap.step, Heap.regimenOf]
+
+/-- with derived objects that keep a reference to the model they were given, the second choice
+    replaces the first arm's regimen and dosed the source: the property fails whenever `a ≠ b` -/
+theorem C10_derived_shared_counterexample (s a b : Regimen) :
+    let σ := (Heap.init s).runShared [.copy 0, .copy 0, .set 1 a, .set 2 b]
+    σ.regimenOf 1 = b ∧ σ.regimenOf 2 = b ∧ σ.regimenOf 0 = b := by
+  simp [Heap.init, Heap.runShared, Heap.stepShared, Heap.step, Heap.regimenOf]
+
+example : (Heap.init none).WF ∧ (Heap.init none).ValidOps [.copy 0, .wrap 1, .set 2 (some [])] := by
+  refine ⟨fun k hk => by simp [Heap.init], ?_⟩
+  simp [Heap.ValidOps, Heap.init, Heap.step, DeriveOp.handle]
+
 /-! ## non-vacuity -/
 
 example : regimenToEvent 2 (1/2) (1/4) (some 1) none = .ok ⟨8, 1/2, 1/4, 1, 0⟩ := by
